@@ -234,6 +234,21 @@ def _gen_graph(rng):
     return (n, [(v, u) if rng.random() < 0.3 else (u, v) for u, v in pairs])
 
 
+def _gen_even_graph(rng):
+    """mostly graphs with all degrees even (disjoint cycles), sometimes any graph"""
+    if rng.random() < 0.35:
+        return _gen_graph(rng)
+    n = rng.choice([0, 1, 3, 4, 5, 6, 7])
+    vs = list(range(1, n + 1))
+    rng.shuffle(vs)
+    es = []
+    while len(vs) >= 3:
+        k = rng.randint(3, len(vs)) if len(vs) < 6 else rng.choice([3, 4, len(vs)])
+        cyc, vs = vs[:k], vs[k:]
+        es += [(cyc[i], cyc[(i + 1) % k]) for i in range(k)]
+    return (n, es)
+
+
 def _real_graph(g):
     from cnfgen.graphs import Graph
     n, es = g
@@ -560,6 +575,12 @@ HINTS = {
     ("GraphEdgesVariables", "lit"): graph_edge_lit,
     ("GraphEdgesVariables", "formula"): lambda rng, ctx: rng.choice([0, 0, 3, 10]),
     ("PerfectMatchingPrinciple", "G"): lambda rng, ctx: _gen_graph(rng),
+    ("GraphColoringFormula", "G"): lambda rng, ctx: _gen_graph(rng),
+    ("GraphColoringFormula", "colors"): lambda rng, ctx: rng.choice([0, 1, 2, 3, 4, -1]),
+    ("EvenColoringFormula", "G"): lambda rng, ctx: _gen_even_graph(rng),
+    ("TseitinFormula", "G"): lambda rng, ctx: _gen_graph(rng),
+    ("TseitinFormula", "charges"): lambda rng, ctx: (None if rng.random() < 0.3 else
+                                                    [rng.random() < 0.5 for _ in range(rng.choice([0, 1, 2, 3, 4, 5, 6, 7]))]),
     ("GraphPigeonholePrinciple", "G"): lambda rng, ctx: _gen_bip(rng),
     ("RelativizedPigeonholePrinciple", "pigeons"): lambda rng, ctx: rng.choice([0, 1, 2, 3, 4, -1]),
     ("RelativizedPigeonholePrinciple", "resting_places"): lambda rng, ctx: rng.choice([0, 1, 2, 3, 4, -1]),
